@@ -406,7 +406,7 @@ impl Exec {
 
     #[allow(clippy::too_many_arguments)]
     fn oracle(&mut self, idx: usize, data: &[u8], res: &str, calls: &[String], before: &str, after: &str, fault: Option<usize>, o: &mut Out) {
-        let n = self.n;
+        let _n = self.n;
         if res == "PANIC" {
             o.fail("C02", format!("handle_block({}) panicked", idx));
             return;
